@@ -10,6 +10,11 @@ Inductive tag := Equal | Replace | Delete | Insert.
 Definition opcode := (tag * (nat * nat) * (nat * nat))%type.      (* (tag, (i1, i2), (j1, j2)) *)
 Definition block := (nat * nat * nat)%type.                       (* (i, j, size) *)
 
+Definition op_tag (o : opcode) : tag := fst (fst o).
+Definition op_a (o : opcode) : nat * nat := snd (fst o).
+Definition op_b (o : opcode) : nat * nat := snd o.
+Definition mk_op (t : tag) (a b : nat * nat) : opcode := (t, a, b).
+
 Section Matcher.
   Variable A : Type.
   Variable same_key : A -> A -> bool.
